@@ -8,7 +8,8 @@
 // Output per op:  <out> p=<Position()> l=<Len()> a=<0|1>   joined by " ; "
 //
 // The line ends with ` | alias=-`, or ` | alias=<i>` when the string returned by op i (ReadString) changed after the stream
-// was compacted (Tidy) or reused (Reset + Write) later — see aliasCheck.
+// was compacted (Tidy) or reused (Reset + Write) later — see aliasCheck — or ` | alias=tidy<i>:<what>` when a Tidy() between
+// two calls of the case (before op i) was not transparent to the reader — see tidyCheck.
 //
 //	out = ok:<value> | err:<Enum> | panic
 //	a=1 iff the bytes allocated during the call (runtime.MemStats.TotalAlloc delta; single goroutine, GOMAXPROCS=1,
@@ -16,6 +17,7 @@
 package main
 
 import (
+	"bytes"
 	"encoding/hex"
 	"fmt"
 	"runtime"
@@ -157,7 +159,7 @@ func exec(c *hx.Ctx, line string) string {
 	s, r := fresh(input, 0)
 	var out []string
 	var steps []step
-	hasStr := false
+	hasStr, overAlloc := false, false
 	for _, f := range strings.Split(parts[1], ";") {
 		w := strings.Fields(f)
 		if len(w) == 0 {
@@ -186,8 +188,9 @@ func exec(c *hx.Ctx, line string) string {
 			op = opRaw
 			buf = make([]byte, n)
 		}
-		steps = append(steps, step{at, op, len(buf)})
+		steps = append(steps, step{at: at, op: op, rawN: len(buf)})
 		remaining := s.Len() - s.Position()
+		posBefore := s.Position()
 		var res result
 		runtime.ReadMemStats(&m0)
 		call(op, r, s, buf, &res)
@@ -238,7 +241,9 @@ func exec(c *hx.Ctx, line string) string {
 		if allocated > uint64(2*remaining+4096) {
 			a = 1
 			allocViolations++
+			overAlloc = true
 		}
+		steps[len(steps)-1].res, steps[len(steps)-1].buf, steps[len(steps)-1].dpos = res, buf, s.Position()-posBefore
 		if allocated > 1<<20 {
 			// GC is off: give a large allocation back at once, otherwise a few hostile prefixes exhaust the address space
 			res = result{}
@@ -254,6 +259,15 @@ func exec(c *hx.Ctx, line string) string {
 			alias = "panic"
 		}
 	}
+	if alias == "-" && !overAlloc && allocViolations <= 30 {
+		alias = hx.SafeExec(func() string { return tidyCheck(input, steps) })
+		if strings.HasPrefix(alias, "panic") {
+			alias = "tidy:panic"
+		}
+		if len(input) >= 1<<15 {
+			runtime.GC() // GC is off: the replays of a large case each copied the input
+		}
+	}
 	return strings.Join(out, " ; ") + " | alias=" + alias
 }
 
@@ -261,6 +275,10 @@ type step struct {
 	at   int // >= 0: the call is made on a fresh stream positioned there
 	op   int
 	rawN int
+	// what the call did in the observed run (tidyCheck compares against it)
+	res  result
+	buf  []byte // destination of a raw read
+	dpos int    // Position() after - before
 }
 
 // keptStr: a string returned by a successful ReadString, the bytes it had when it was returned, and the stream it came from
@@ -342,6 +360,118 @@ func aliasCheck(input []byte, steps []step) string {
 		mid++
 		if i := stress(ks2, []*iox.OctetsStream{cur}); i >= 0 {
 			return strconv.Itoa(i)
+		}
+	}
+	return "-"
+}
+
+// sameResult: the two calls had the same outcome (panic / error identity / value)
+func sameResult(op int, a, b *result, bufA, bufB []byte) bool {
+	if a.panicked != b.panicked {
+		return false
+	}
+	if a.panicked {
+		return true
+	}
+	if (a.err == nil) != (b.err == nil) {
+		return false
+	}
+	if a.err != nil {
+		return a.err == b.err || a.err.Error() == b.err.Error()
+	}
+	switch op {
+	case opBool:
+		return a.bval == b.bval
+	case opBytes:
+		return bytes.Equal(a.data, b.data)
+	case opStr:
+		return a.sval == b.sval
+	case opRaw:
+		return a.count == b.count && a.count >= 0 && a.count <= len(bufA) && a.count <= len(bufB) && bytes.Equal(bufA[:a.count], bufB[:a.count])
+	}
+	return a.ival == b.ival
+}
+
+// tidyCheck: compaction is transparent to a reader. A receive loop decodes what is complete, calls Tidy() and goes on decoding
+// (OctetsStream.Tidy is documented to drop the consumed prefix only), so for split points i of the case (every i for up to 10
+// ops, five spread ones otherwise) the calls before op i are replayed on a stream of their own (not metered), then Tidy() is
+// called and
+//   - 0 <= Position() <= Len(), the number of unread bytes is what it was, Bytes() is the unread rest of the input;
+//   - the following calls of the case (up to the next `@k`, which abandons the stream) have the same outcome - value, error
+//     identity, no panic - and consume the same number of bytes as they did in the observed run without the Tidy().
+//
+// The capacity history matters here: the stream was filled with the whole input by one Write, so for inputs of 64 KiB and
+// more (the big-record classes) Tidy() runs on a large buffer with a small or a large unread rest.
+// Returns "-" or `tidy<i>:<what>` (Tidy before op i).
+func tidyCheck(input []byte, steps []step) string {
+	n := len(steps)
+	var splits []int
+	if n <= 10 {
+		for i := 1; i <= n; i++ {
+			splits = append(splits, i)
+		}
+	} else {
+		for _, i := range []int{1, n / 3, n / 2, 2 * n / 3, n} {
+			if len(splits) == 0 || splits[len(splits)-1] != i {
+				splits = append(splits, i)
+			}
+		}
+	}
+	one := func(i int) (verdict string) {
+		defer func() {
+			if e := recover(); e != nil {
+				verdict = fmt.Sprintf("tidy%d:panic", i)
+			}
+		}()
+		// the stream op i-1 worked on: everything before the last `@k` at or before i-1 happened on abandoned streams
+		from := 0
+		for j := i - 1; j > 0; j-- {
+			if steps[j].at >= 0 {
+				from = j
+				break
+			}
+		}
+		start := 0
+		if steps[from].at >= 0 {
+			start = steps[from].at
+		}
+		s, r := fresh(input, start)
+		for j := from; j < i; j++ {
+			var res result
+			call(steps[j].op, r, s, make([]byte, steps[j].rawN), &res)
+		}
+		p0 := s.Position()
+		if p0 < 0 || p0 > len(input) || s.Len() != len(input) {
+			return "-" // the reads themselves left the stream in a bad state: judged on the observed run
+		}
+		s.Tidy()
+		p, l := s.Position(), s.Len()
+		if p < 0 || p > l {
+			return fmt.Sprintf("tidy%d:Position()=%d_outside_[0,Len()=%d]", i, p, l)
+		}
+		if l-p != len(input)-p0 {
+			return fmt.Sprintf("tidy%d:unread=%d_was_%d", i, l-p, len(input)-p0)
+		}
+		if !bytes.Equal(s.Bytes(), input[p0:]) {
+			return fmt.Sprintf("tidy%d:unread_bytes_changed", i)
+		}
+		for j := i; j < n && steps[j].at < 0; j++ {
+			before := s.Position()
+			var res result
+			buf := make([]byte, steps[j].rawN)
+			call(steps[j].op, r, s, buf, &res)
+			if !sameResult(steps[j].op, &steps[j].res, &res, steps[j].buf, buf) {
+				return fmt.Sprintf("tidy%d:op%d_outcome_differs", i, j)
+			}
+			if s.Position()-before != steps[j].dpos {
+				return fmt.Sprintf("tidy%d:op%d_consumed_%d_was_%d", i, j, s.Position()-before, steps[j].dpos)
+			}
+		}
+		return "-"
+	}
+	for _, i := range splits {
+		if v := one(i); v != "-" {
+			return v
 		}
 	}
 	return "-"
